@@ -41,6 +41,8 @@ func C04(r *core.Report) {
 	r.Floor("C04.R5", 9)
 	c04ReaderCapsCoverWriter(r)
 	c04EntryCodecRoundTrip(r)
+	c04CollisionDetectionExact(r)
+	r.Floor("C04.R8", 3)
 	r.Floor("C04.R7", 9)
 	r.Floor("C04.R6", 2)
 }
@@ -924,4 +926,139 @@ func c04EntryCodecRoundTrip(r *core.Report) {
 				"the entry codec does not round-trip: "+why+" - a key is found with another value, or not found at all")
 		}
 	}
+}
+
+// c04CollisionDetectionExact (C04.R8): a hash domain is accepted only if no two keys of the bucket share the truncated
+// hash. hashBucket must therefore report ErrCollision through a test that sees every pair: either a membership
+// structure indexed by the hash (test, then mark, for every key), or an adjacency comparison on a slice that is in
+// sorted order at that point - not after the eytzinger layout, where equal hashes are no longer neighbours.
+func c04CollisionDetectionExact(r *core.Report) {
+	const rule = "C04.R8"
+	p := r.Prog
+	for _, pk := range c04Pkgs {
+		f := r.Anchor(rule, pk+".hashBucket")
+		if f == nil {
+			continue
+		}
+		info := f.Pkg.TypesInfo
+		g := p.Graph(f)
+		// the hash variable
+		var hashObj types.Object
+		ast.Inspect(f.Body, func(n ast.Node) bool {
+			as, ok := n.(*ast.AssignStmt)
+			if !ok || len(as.Lhs) != 1 || len(as.Rhs) != 1 {
+				return true
+			}
+			for _, c := range core.CallsIn(as.Rhs[0], false) {
+				if strings.HasSuffix(core.CalleeName(info, c), ".EntryHash64") {
+					hashObj = core.ObjOf(info, as.Lhs[0])
+				}
+			}
+			return true
+		})
+		k := pk + ".hashBucket#collision-test-sees-every-pair"
+		if hashObj == nil {
+			r.Undecided(rule, k, posP(r, f.Pos()), "the truncated hash variable was not identified")
+			continue
+		}
+		taint := taintFrom(f, hashObj)
+		var colRets []*core.GNode
+		for _, rn := range g.Returns() {
+			for _, e := range returnResults(rn) {
+				if strings.Contains(core.ExprStr(e), "ErrCollision") {
+					colRets = append(colRets, rn)
+				}
+			}
+		}
+		if len(colRets) == 0 {
+			r.Violation(rule, k, posP(r, f.Pos()), "hashBucket never reports ErrCollision: a hash domain in which two keys share the truncated hash is accepted and one key answers with the other's value")
+			continue
+		}
+		ok, why := false, "the test in front of `return ErrCollision` is neither a membership test indexed by the hash nor an adjacency comparison on a sorted slice"
+		for _, rn := range colRets {
+			for _, fc := range g.FactsAt(rn) {
+				if fc.Tag != nil {
+					continue
+				}
+				// Form A: fact mentions a hash-derived variable; a store into the same container indexed by a hash-derived index follows
+				mentionsT := false
+				for o := range taint {
+					if core.Mentions(info, fc.Expr, o) {
+						mentionsT = true
+					}
+				}
+				if mentionsT {
+					stores := false
+					ast.Inspect(f.Body, func(n ast.Node) bool {
+						as, isA := n.(*ast.AssignStmt)
+						if !isA {
+							return true
+						}
+						for _, l := range as.Lhs {
+							if ix, isIx := core.Unparen(l).(*ast.IndexExpr); isIx {
+								io := core.ObjOf(info, ix.Index)
+								if _, isMap := info.TypeOf(ix.X).Underlying().(*types.Map); isMap && (io == hashObj || taint[io]) {
+									stores = true
+								}
+								if io != nil && (io == hashObj || taint[io]) && as.Pos() > fc.Expr.Pos() {
+									stores = true
+								}
+							}
+						}
+						return true
+					})
+					if stores {
+						ok = true
+					} else {
+						why = "the membership structure tested before `return ErrCollision` is never marked with the current hash"
+					}
+				}
+				// Form B: adjacency comparison X[i].Hash == X[i±1].Hash
+				if be, isB := core.Unparen(fc.Expr).(*ast.BinaryExpr); isB && be.Op == token.EQL && fc.Truth {
+					lx, rx := adjacencyBase(info, be.X), adjacencyBase(info, be.Y)
+					if lx != nil && lx == rx {
+						// the slice must be in sorted order here: a real sort dominates, and no layout transform of the slice in between
+						sorted, transformed := false, false
+						at := g.NodeOf(fc.Expr.Pos())
+						for _, n := range stmtNodes(g) {
+							if at == nil || !g.Dominates(n, at) {
+								continue
+							}
+							for _, si := range sortCalls(info, n.Ast) {
+								if si.SliceObj == lx && si.Decided {
+									sorted, transformed = true, false
+								}
+							}
+							for _, c := range nodeCalls(n) {
+								nm := core.CalleeName(info, c)
+								if (strings.HasSuffix(nm, ".sortWithCompare") || strings.HasSuffix(nm, ".eytzinger")) && len(c.Args) > 0 && core.ObjOf(info, c.Args[0]) == lx {
+									transformed = true
+								}
+							}
+						}
+						if sorted && !transformed {
+							ok = true
+						} else {
+							why = "equal hashes are looked for among neighbours of " + lx.Name() + ", which is in eytzinger (tree) order at that point, not in sorted order: most collisions go unnoticed"
+						}
+					}
+				}
+			}
+		}
+		r.Check(ok, rule, k, pos(r, colRets[0].Ast), "every pair of keys with the same truncated hash is reported as a collision (membership structure or sorted adjacency)",
+			why+" - a colliding hash domain is accepted and one key answers with the other key's value")
+	}
+}
+
+// adjacencyBase: X for expressions of the form X[i].Hash / X[i-1].Hash / X[i+1].Hash
+func adjacencyBase(info *types.Info, e ast.Expr) types.Object {
+	sel, ok := core.Unparen(e).(*ast.SelectorExpr)
+	if !ok {
+		return nil
+	}
+	ix, ok := core.Unparen(sel.X).(*ast.IndexExpr)
+	if !ok {
+		return nil
+	}
+	return core.ObjOf(info, ix.X)
 }
